@@ -1,7 +1,9 @@
 //! C11 — fragmentation always progresses and partitions the PDU exactly.
 
 use super::sender::*;
-use crate::engine::{GenPart, Property, Stats, Tier};
+use crate::common::*;
+use crate::engine::{EnumPart, GenPart, Property, Stats, Tier};
+use serde_json::Value;
 use proptest::prelude::*;
 
 fn strategy(t: Tier) -> BoxedStrategy<SendCase> {
@@ -12,12 +14,51 @@ fn check(c: &SendCase, st: &mut Stats) -> Result<(), String> {
     run_send_case(c, st, Flags { c06: false, c11: true }).map(|_| ())
 }
 
+// ---- enumerated grid: one continuation call for every (remaining, buffer), then the train is finished ------
+
+const GRID_R: u64 = 4201; // remaining 0..=4200
+const GRID_B: u64 = 4301; // buffer 0..=4300
+
+fn grid_case(i: u64) -> SendCase {
+    let (r, b) = (i / GRID_B, i % GRID_B);
+    SendCase {
+        reuse: ReuseCfg::Default,
+        sends: vec![SendOne {
+            pdu: Pdu { len: r as u32, seed: 3 + r as u32 },
+            lab: Lab::Broadcast,
+            ptype: 0x0800,
+            frag_id: (r % 256) as u8,
+            exts: vec![],
+            first: BufSpec::Abs(0),
+            conts: vec![BufSpec::Abs(b as u32)],
+            tail_base: 4097,
+            tail_span: 1,
+            // context "nothing sent yet" made by hand: the whole PDU remains
+            handmade: Some((0xC0DE_0000 | r as u32, 0)),
+        }],
+    }
+}
+
+fn check_grid(i: u64, st: &mut Stats) -> Result<(), String> {
+    run_send_case(&grid_case(i), st, Flags { c06: false, c11: true }).map(|_| ())
+}
+
 pub fn property() -> Property {
     Property {
         id: "C11",
         rule: "trains started by encap or from ContextFrag::new at any position 0..=len (incl. exactly at the end), continuation buffers 0..=70000 weighted to 0..=12 and to remaining+3-3..=+8, then tail buffers >= 7; oracle: first context == payload carried, each Ok continuation is the CRC-bearing end with all remaining bytes or an intermediate with >= 1 byte and a context advanced by exactly that, payloads are consecutive PDU slices summing to the PDU, buffers >= 7 never fail and finish within remaining+1 calls, never an empty fragment. non-trivial = a call within 8 bytes of the end threshold, or remaining == 0, or buffer < 7, or a hand-made context",
         assumptions: &["RefCodec locates the payload in emitted packets"],
-        parts: vec![Box::new(GenPart {
+        parts: vec![
+        Box::new(EnumPart {
+            name: "continuation-grid",
+            rule: "a hand-made context with r bytes remaining (r 0..=4200) given one buffer b, then 4097-byte buffers until the train ends: every b 0..=4300 (18 M trains, exhaustive in both tiers); same oracle as the trains",
+            size: |_| GRID_R * GRID_B,
+            exhaustive: |_| true,
+            check: check_grid,
+            describe: |_t, i| serde_json::to_value(grid_case(i)).unwrap_or(Value::Null),
+            required_classes: &["intermediate", "end", "cont-buffer<7", "cont-remaining=0", "handmade-context-at-end", "cont-room-for-payload-not-crc", "cont-err"],
+        }),
+        Box::new(GenPart {
             name: "trains",
             rule: "see property rule",
             cases: (720_000, 20_000_000),
